@@ -50,7 +50,7 @@ const (
 
 // c42Case is the replayable description of one execution.
 type c42Case struct {
-	Kind   string   `json:"kind"`   // what transitions create: "file" or "dir" at path t; "gate": directories t and t2 in one call, held between the two changes until "release"
+	Kind   string   `json:"kind"`   // what transitions create: "file" or "dir" at path t; "gate": directories t and t2 in one call, held between the two changes until "release"; "macro": like "dir" but with the controller's habits as single events (sync = Scan+Transition, await = Poll+30 ms)
 	Events []string `json:"events"` // scan scanfull trans release poll cancel adv30 adv1s extedit extrev
 }
 
@@ -272,6 +272,20 @@ func (w *c42World) enabled() []string {
 		}
 		return w.dropRepeatedShortAdvance(append(out, "cancel"))
 	}
+	if w.kind == "macro" {
+		// The consumer behaves like the controller: a cycle is Scan followed by
+		// Transition ("sync") or Scan alone; waiting is Poll plus the coalescing
+		// window ("await").
+		out = append(out, "sync", "scan", "scanfull")
+		if !w.notifiedSinceScan {
+			out = append(out, "await")
+		}
+		out = append(out, "adv1s", "extedit")
+		if rev {
+			out = append(out, "extrev")
+		}
+		return out
+	}
 	out = append(out, "scan", "scanfull")
 	if w.haveScan && w.canTransition {
 		out = append(out, "trans")
@@ -314,6 +328,18 @@ func (w *c42World) do(ev string) {
 		w.doScan(ev == "scanfull")
 	case "trans":
 		w.startTransition()
+	case "sync":
+		w.doScan(false)
+		if w.res.Infra == "" && w.res.Clause == "" {
+			w.startTransition()
+		}
+	case "await":
+		w.startPoll()
+		synctest.Wait()
+		w.observe()
+		if w.polling {
+			time.Sleep(30 * time.Millisecond)
+		}
 	case "release":
 		close(w.gate.ch)
 		synctest.Wait()
@@ -774,9 +800,9 @@ func isSubsequence(pat, h []string) bool {
 
 // c42Rank orders events for the canonical form of a minimal violating history.
 // c42EventNames is the event alphabet (index = compact encoding).
-var c42EventNames = []string{"scan", "scanfull", "trans", "release", "poll", "cancel", "adv30", "adv1s", "extedit", "extrev"}
+var c42EventNames = []string{"scan", "scanfull", "trans", "release", "poll", "cancel", "adv30", "adv1s", "extedit", "extrev", "sync", "await"}
 
-var c42Rank = map[string]int{"scan": 0, "scanfull": 1, "trans": 2, "release": 3, "adv30": 4, "adv1s": 5, "poll": 6, "cancel": 7, "extedit": 8, "extrev": 9}
+var c42Rank = map[string]int{"scan": 0, "scanfull": 1, "trans": 2, "sync": 2, "release": 3, "adv30": 4, "adv1s": 5, "poll": 6, "await": 6, "cancel": 7, "extedit": 8, "extrev": 9}
 
 // minimiseC42 reduces a violating case to a canonical 1-minimal one: (1) greedy
 // delta debugging - remove single events while the case stays a valid history
@@ -841,7 +867,7 @@ func minimiseC42(t *testing.T, env *c42Env, c c42Case, clause string, runs *int6
 	// A history without transitions does not depend on the transition kind.
 	uses := false
 	for _, e := range cur {
-		if e == "trans" || e == "extrev" || e == "release" {
+		if e == "trans" || e == "extrev" || e == "release" || e == "sync" || e == "await" {
 			uses = true
 		}
 	}
@@ -889,19 +915,19 @@ func TestC42(t *testing.T) {
 	// file variant costs a staging round per transition and adds nothing to the
 	// watch logic, so it runs one level shallower in the quick tier; depth 8 does
 	// not fit the 10 min thorough budget, 7 does).
-	depthOf := map[string]int{"dir": 6, "file": 5, "gate": 5}
+	depthOf := map[string]int{"macro": 6, "dir": 6, "file": 5, "gate": 5}
 	if vr.Thorough() {
-		depthOf = map[string]int{"dir": 7, "file": 7, "gate": 7}
+		depthOf = map[string]int{"macro": 8, "dir": 7, "file": 7, "gate": 7}
 	}
 	if s := os.Getenv("VERIF_C42_DEPTH"); s != "" { // for measuring tree sizes only
 		var d int
 		fmt.Sscan(s, &d)
-		depthOf = map[string]int{"dir": d, "file": d, "gate": d}
+		depthOf = map[string]int{"macro": d, "dir": d, "file": d, "gate": d}
 	}
 	depth := depthOf["dir"]
-	kinds := []string{"dir", "file", "gate"}
-	deadline := vr.Deadline(55*time.Second, 9*time.Minute)
-	r.Rule(fmt.Sprintf("every sequence of <= %d harness events (scan, scanfull, trans[create/delete t after staging], poll, cancel, adv30ms, adv1s, extedit[g: create/modify/delete], extrev[exact external reversal of the last transition]) that respects the Endpoint contract (one call outstanding, Transition only after a Scan), for t a directory (depth %d), t a file (depth %d), and a two-change transition (directories t and t2) held by a hook-layer gate between its two changes until a release event so that poll scans land inside it (depth %d); each history is a fresh bubble replayed from scratch; non-trivial = a Scan was judged after a disk-changing transition, or an external modification created a notification obligation; distinct by (kind, event list)", depth, depthOf["dir"], depthOf["file"], depthOf["gate"]))
+	kinds := []string{"macro", "dir", "file", "gate"}
+	deadline := scaledDeadline(55*time.Second, 9*time.Minute)
+	r.Rule(fmt.Sprintf("every sequence of <= %d harness events (scan, scanfull, trans[create/delete t after staging], poll, cancel, adv30ms, adv1s, extedit[g: create/modify/delete], extrev[exact external reversal of the last transition]) that respects the Endpoint contract (one call outstanding, Transition only after a Scan), for t a directory (depth %d), t a file (depth %d), and a two-change transition (directories t and t2) held by a hook-layer gate between its two changes until a release event so that poll scans land inside it (depth %d), plus a controller-shaped variant whose events are whole habits (sync = Scan then Transition, await = Poll then 30 ms; depth %d, so it reaches much longer raw histories); histories are visited level by level (all variants of length d before any of length d+1); each history is a fresh bubble replayed from scratch; non-trivial = a Scan was judged after a disk-changing transition, or an external modification created a notification obligation; distinct by (kind, event list)", depth, depthOf["dir"], depthOf["file"], depthOf["gate"], depthOf["macro"]))
 	r.Assume("real local endpoint, force-poll, 1 s interval, accelerated scanning, probe mode assume, staging in the data directory",
 		"granularity: harness events happen only at quiescence (synctest.Wait); interleavings inside one quiescence step and Go select choice are not owned (divergent_replays counts observed differences)",
 		"second sentence judged on what the consumer can see: while the disk differs from what the consumer was last told (Scan result + transition results) and no notification was delivered since it was told, a Poll must return within interval + 2 x coalescing window of virtual time from the last change of disk or belief; modifications undone before a poll could sample them, or already reported by a Scan, owe nothing",
